@@ -293,6 +293,87 @@ def ownership_part(ck, tier):
     ck.sample({"part": "ownership", "interleaving": list(orders[len(orders) // 2]), "classes": 5})
 
 
+class _Boom(Exception):
+    pass
+
+
+class _CrashPost(GaussPost):
+    """the posterior raises at its k-th evaluation after being armed (a failing model evaluation, a keyboard interrupt)"""
+    def __init__(self, n):
+        super().__init__(n)
+        self.n_calls, self.k = 0, None
+
+    def __call__(self, x):
+        self.n_calls += 1
+        if self.k is not None and self.n_calls == self.k:
+            raise _Boom()
+        return super().__call__(x)
+
+
+def interrupted_part(ck, tier):
+    """every crash point of a step: the posterior raises at its k-th evaluation inside a step; the caller catches the exception and carries on.
+    The chain must still read consistently: as many samples as log-probabilities as chain_length, every parameter read-out of that length,
+    every stored log-probability the (tempered) posterior at its own row -- right after the interruption and after further steps"""
+    from inference.mcmc import GibbsChain, PcaChain, HamiltonianChain, EnsembleSampler
+    from inference.mcmc.gibbs import MetropolisChain
+    st = np.array([0.1, 0.2, 0.3])
+
+    def mk(name, post, T):
+        kw = dict(posterior=post, display_progress=False)
+        if name == "EnsembleSampler":
+            return EnsembleSampler(starting_positions=np.random.default_rng(1).normal(size=(7, 3)), **kw)
+        if name == "HamiltonianChain":
+            return HamiltonianChain(grad=post.grad, start=st.copy(), temperature=T, **kw)
+        cls = {"GibbsChain": GibbsChain, "MetropolisChain": MetropolisChain, "PcaChain": PcaChain}[name]
+        return cls(start=st.copy(), widths=np.full(3, 0.5), temperature=T, **kw)
+    for name in ("GibbsChain", "MetropolisChain", "PcaChain", "HamiltonianChain", "EnsembleSampler"):
+        for T in ((1.0,) if name == "EnsembleSampler" else (1.0, 2.0)):
+            for k in range(1, (10 if tier == "quick" else 24)):
+                post = _CrashPost(3)
+                ch = mk(name, post, T)
+                ens = name == "EnsembleSampler"
+                step = (lambda: ch.advance(1)) if ens else ch.take_step
+                if hasattr(ch, "rng"):
+                    ch.rng = np.random.default_rng(seed() + k)
+                for _ in range(3):
+                    step()
+                post.n_calls, post.k = 0, k
+                try:
+                    step()
+                    continue                                   # the step needed fewer evaluations: no interruption happened
+                except _Boom:
+                    pass
+                except Exception as ex:
+                    ck.violation("an exception of the posterior inside a step surfaced as another error", {"class": name, "evaluation": k, "error": repr(ex)[:200]},
+                                 site=f"{name}.take_step:interrupted")
+                    continue
+                post.k = None
+                ck.case(("interrupted", name, T, k))
+                try:
+                    for phase in (0, 1):
+                        if phase:
+                            step()
+                            step()
+                        smp = np.asarray(ch.get_sample() if ens else ch.get_sample(burn=0), dtype=float)
+                        prb = np.asarray(ch.get_probabilities() if ens else ch.get_probabilities(burn=0), dtype=float)
+                        pars = [np.asarray(ch.get_parameter(i) if ens else ch.get_parameter(i, burn=0), dtype=float) for i in range(3)]
+                        ok = (len(smp) == len(prb) == int(ch.chain_length) and all(len(p) == len(prb) for p in pars)
+                              and all(np.array_equal(pars[i], smp[:, i]) for i in range(3))
+                              and all(abs(GaussPost(3)(r) / T - q) <= 1e-9 * (1 + abs(q)) for r, q in zip(smp, prb)))
+                        if ens:
+                            ok = ok and all(abs(GaussPost(3)(r) - q) <= 1e-9 * (1 + abs(q)) for r, q in zip(np.asarray(ch.walker_positions, dtype=float),
+                                                                                                              np.asarray(ch.walker_probs, dtype=float)))
+                        if not ok:
+                            ck.violation("LenAgree / ProbsBelong / aligned read-outs after a step that was interrupted by an exception of the posterior",
+                                         {"class": name, "temperature": T, "posterior_evaluation_that_raised": k, "when": ["right after", "two steps later"][phase],
+                                          "samples": len(smp), "probabilities": len(prb), "chain_length": int(ch.chain_length), "parameter_lengths": [len(p) for p in pars]},
+                                         site=f"{name}.take_step:interrupted")
+                            break
+                except Exception as ex:
+                    ck.violation("read-out or further step raised after a step that was interrupted by an exception of the posterior",
+                                 {"class": name, "temperature": T, "posterior_evaluation_that_raised": k, "error": repr(ex)[:300]}, site=f"{name}.take_step:interrupted")
+
+
 def pt_part(ck, tier, unforced=False):
     s = seed()
     scen = [("c03_n3", dict(temps=[1, 2, 4], starts=[[-3, 4], [4, -3], [0, 1]], kind="gibbs", display=True, seed=s + 31, force="accept",
@@ -356,6 +437,7 @@ def run(tier):
     reload_part(ck, tier)
     reload_ensemble_part(ck, tier)
     defaults_part(ck, tier)
+    interrupted_part(ck, tier)
     pt_part(ck, tier)
     from harness import repotests
     repotests.run_part(ck, "C03")          # traces of the repository's own MCMC tests, judged by TestRunTrace.tla
